@@ -66,4 +66,21 @@ impl E {
         drop(g);
         n
     }
+
+    /// C16.M1 positive: the pointer is computed by a closure that reads through the captured guard and is used after the guard died.
+    pub fn read_via_closure_after_drop(&self, i: Option<usize>) -> Option<u8> {
+        let g = self.0.lock().unwrap();
+        let p = i.and_then(|i| g.get(i))?;
+        drop(g);
+        Some(unsafe { p.read() })
+    }
+
+    /// negative: same, used while the guard is live
+    pub fn read_via_closure_locked(&self, i: Option<usize>) -> Option<u8> {
+        let g = self.0.lock().unwrap();
+        let p = i.and_then(|i| g.get(i))?;
+        let v = unsafe { p.read() };
+        drop(g);
+        Some(v)
+    }
 }
